@@ -63,6 +63,43 @@ def widths_program(vals, order):
             + ' bool[] fl = [true, false, true]; const bool[] cf = [true, false, true]; write(fl[0]); write(cf[2]); writeln(); }\n')
 
 
+def file_case(st, Ws):
+    """Raw (unescaped) characters inside literals of a source FILE compiled by the command-line driver."""
+    import os
+    import subprocess
+    import sys
+    import tempfile
+    from .. import hid, svm
+    raws = [chr(c) for c in (1, 8, 9, 11, 12, 27, 31, 32, 127, 0xa0, 0xe9, 0x2028)] + ['\t\t', 'a\tb', '\t x']
+    body = ''.join(f'write("{r}|"); write("{r}".length); write(\'|\');' for r in raws)
+    chars = ''.join(f"write('{r}');" for r in raws if len(r.encode('utf-8')) == 1)
+    text = 'empty @is_you() {\n\t' + body + '\n\t' + chars + '\n}\n'
+    want = b''.join(r.encode('utf-8') + b'|' + str(len(r.encode('utf-8'))).encode() + b'|' for r in raws) + b''.join(r.encode() for r in raws if len(r.encode('utf-8')) == 1)
+    d = tempfile.mkdtemp(prefix='hv_c13_')
+    try:
+        path = os.path.join(d, 'raw.hid')
+        with open(path, 'wb') as f:
+            f.write(text.encode('utf-8'))
+        for W in Ws:
+            st.add('evaluations')
+            env = dict(os.environ)
+            env['PYTHONPATH'] = hid.REPO
+            p = subprocess.run([sys.executable, '-m', 'hidc', path, f'-m{8 * W}', '-o', path + '.s'], env=env, stdout=subprocess.PIPE, stderr=subprocess.PIPE, timeout=120)
+            case = {'kind': 'file'}
+            if p.returncode != 0:
+                st.viol(f'source file with raw control characters in literals is rejected: {p.stderr.decode()[-200:]}', case)
+                continue
+            r = svm.run(svm.assemble(open(path + '.s', 'rb').read().split(b'\n'), [], strict_header=True), 1_000_000)
+            st.vm(r)
+            if r.outcome != 'loop' or r.output != want:
+                st.viol(f'source file with raw characters in literals (W={W}): prints {r.output!r}, the literals denote {want!r}', case)
+            else:
+                st.add('traces_validated_against_impl')
+    finally:
+        import shutil
+        shutil.rmtree(d, ignore_errors=True)
+
+
 def length_program(lo, hi):
     L = ['empty @is_you() {']
     for n in range(lo, hi):
@@ -128,6 +165,8 @@ def items(tier):
     for lo in range(0, 65, 13):
         out.append((i, 'len', lo))
         i += 1
+    out.append((i, 'file'))
+    i += 1
     for bs in ([0x41], [0x5c, 0x22], [0x00, 0xff, 0x0a], [], [0x27, 0x3b, 0x7f]):
         out.append((i, 'viaregs', bs))
         i += 1
@@ -171,6 +210,9 @@ def run_item(item, tier):
     elif kind == 'len':
         run_program(st, length_program(item[2], min(65, item[2] + 13)), [[]], Ws, f'string lengths {item[2]}..')
         st.add('cases', 13)
+    elif kind == 'file':
+        file_case(st, Ws)
+        st.add('cases')
     elif kind == 'viaregs':
         run_program(st, viaregs_program(item[2]), [[]], Ws, f'strings through variables/calls/elements, bytes {item[2]}')
         st.add('cases')
@@ -203,6 +245,7 @@ def coverage(total, tier):
         'raw': 'every printable ASCII character written literally in strings and character literals',
         'pairs': ('all 65536 ordered byte pairs' if tier == 'thorough' else 'ordered pairs with first byte in {\\\\, ", \', LF, CR, NUL, 0xff, A, ;, space, DEL, 0x80} x all 256') + ' (+ a 3-byte string indexed in the middle)',
         'lengths': 'strings of every length 0..64 (written, length, truthiness, last and middle index)',
+        'file': 'a source file with raw control / non-ASCII characters (TAB, BS, VT, FF, ESC, DEL, NBSP, e-acute, U+2028, tab runs) inside string and character literals, compiled by `python -m hidc`',
         'viaregs': 'string -> const byte[] views and writes where the string comes from a local, a global, a call result, a const and a mutable string array element (5 byte patterns)',
         'widths': 'constant arrays with equal values but different element types (byte/int/char-as-int/char-as-byte) declared in ' + ('every' if tier == 'thorough' else 'half of the') + ' orders, 4 value sets',
         'arrays': 'int/byte/string/bool constant arrays, lengths ' + ('0..40' if tier == 'thorough' else '0,1,2,7,8,9,15,16,17,31,32,33,40') + ' x 5 storage classes; '
@@ -220,4 +263,8 @@ def vacuity(total, tier):
 
 
 def replay(case):
+    if case.get('kind') == 'file':
+        st = Stats()
+        file_case(st, [2])
+        return [v['msg'] for v in st.get('viol', [])]
     return replay_conformance(case)
